@@ -99,6 +99,10 @@ def classify(meta, run, unit_file):
 
     failed = []
     tool = []
+    tool_scoped = []
+    # a loop the contract file has no invariant for cannot be verified: failures in such a function are a tool limit
+    unannotated = {f['key']: (f.get('loops', 0), f.get('loops_with_invariant', 0)) for f in meta.get('functions', [])
+                   if f.get('loops', 0) > f.get('loops_with_invariant', 0)}
     canary_lines = set(meta.get('canary_lines', []))
     canary_failed = False
     if run['timed_out']:
@@ -134,6 +138,11 @@ def classify(meta, run, unit_file):
                             (msg, [(s['file_name'], s['line_start']) for s in d.get('spans', [])][:2]))
                 continue
             kind, info, line = hit
+            if info['fn'] in unannotated:
+                tool_scoped.append({'tags': info.get('tags', []), 'clause': info['clause'],
+                                    'msg': 'fn %s has %d loop(s) but the contract supplies invariants for %d: obligation %s is undecided (not a violation)' %
+                                           (info['fn'], unannotated[info['fn']][0], unannotated[info['fn']][1], info['clause'])})
+                continue
             failed.append({'fn': info['fn'], 'clause': info['clause'], 'tags': info.get('tags', []),
                            'message': msg, 'line': line, 'kind': kind,
                            'rendered': d.get('rendered', '')[:3000]})
@@ -155,11 +164,11 @@ def classify(meta, run, unit_file):
                                                  'rlimit': fb.get('rlimit', 0)}
         except Exception:
             pass
-        if not vr.get('success') and not failed and not tool and not canary_failed:
+        if not vr.get('success') and not failed and not tool and not tool_scoped and not canary_failed:
             tool.append('verus reported failure without a classifiable diagnostic: %s' % run['stderr_tail'][-800:])
     if canary_lines and not canary_failed and js is not None and not tool:
         tool.append('CANARY VERIFIED: `ensures false` was proved with the unit\'s axioms in scope -- trusted base inconsistent')
-    return {'failed': failed, 'tool': tool, 'fn_status': fn_status, 'canary_failed': canary_failed}
+    return {'failed': failed, 'tool': tool, 'tool_scoped': tool_scoped, 'fn_status': fn_status, 'canary_failed': canary_failed}
 
 
 def assemble_and_verify(unit, outdir, seed=None, rlimit=None, timeout=900, cache=True):
